@@ -1512,123 +1512,110 @@ impl FixtureDatabase {
         cycles
     }
 
-    /// Actually compute fixture cycles using iterative DFS (Tarjan-like approach).
-    /// Uses iterative algorithm to avoid stack overflow on deep dependency graphs.
+    /// Actually compute fixture cycles using an iterative DFS over individual definitions.
+    /// Uses an iterative algorithm to avoid stack overflow on deep dependency graphs.
+    ///
+    /// Nodes are definitions, not names: the same name can be defined in several files, and
+    /// each dependency is resolved the way pytest resolves it from the depending fixture's
+    /// file (closest definition; a self-named dependency refers to the overridden parent,
+    /// and to the fixture itself only when there is no parent to fall back to).
     fn compute_fixture_cycles(&self) -> Vec<super::types::FixtureCycle> {
         use super::types::FixtureCycle;
         use std::collections::HashMap;
 
-        // Build dependency graph: fixture_name -> dependencies (only known fixtures)
-        let mut dep_graph: HashMap<String, Vec<String>> = HashMap::new();
-        let mut fixture_defs: HashMap<String, FixtureDefinition> = HashMap::new();
+        // Snapshot all definitions in a deterministic order, so that which fixture a cycle
+        // is reported on does not depend on registration or hash order. No map guards are
+        // held while dependencies are resolved below.
+        let mut defs: Vec<FixtureDefinition> = self
+            .definitions
+            .iter()
+            .flat_map(|entry| entry.value().clone())
+            .collect();
+        defs.sort_by(|a, b| {
+            (&a.name, &a.file_path, a.line).cmp(&(&b.name, &b.file_path, b.line))
+        });
+        let index: HashMap<(std::path::PathBuf, usize, String), usize> = defs
+            .iter()
+            .enumerate()
+            .map(|(i, d)| ((d.file_path.clone(), d.line, d.name.clone()), i))
+            .collect();
 
-        for entry in self.definitions.iter() {
-            let fixture_name = entry.key().clone();
-            if let Some(def) = entry.value().first() {
-                fixture_defs.insert(fixture_name.clone(), def.clone());
-                // Only include dependencies that are known fixtures
-                let valid_deps: Vec<String> = def
-                    .dependencies
+        // Dependency edges between definitions (only dependencies that are known fixtures)
+        let edges: Vec<Vec<usize>> = defs
+            .iter()
+            .enumerate()
+            .map(|(i, def)| {
+                def.dependencies
                     .iter()
-                    .filter(|d| self.definitions.contains_key(*d))
-                    .cloned()
-                    .collect();
-                dep_graph.insert(fixture_name, valid_deps);
-            }
-        }
+                    .filter_map(|dep| {
+                        let self_named = dep == &def.name;
+                        let exclude = self_named.then_some(def);
+                        match self.find_closest_definition_excluding(&def.file_path, dep, exclude)
+                        {
+                            Some(target) => index
+                                .get(&(target.file_path, target.line, target.name))
+                                .copied(),
+                            // A fixture requesting its own name with no parent definition
+                            // to fall back to is a recursive dependency in pytest.
+                            None if self_named => Some(i),
+                            None => None,
+                        }
+                    })
+                    .collect()
+            })
+            .collect();
 
         let mut cycles = Vec::new();
-        let mut visited: HashSet<String> = HashSet::new();
-        let mut seen_cycles: HashSet<String> = HashSet::new(); // Deduplicate cycles
+        let mut visited = vec![false; defs.len()];
+        let mut on_path = vec![false; defs.len()];
+        let mut seen_cycles: HashSet<Vec<usize>> = HashSet::new(); // Deduplicate cycles
 
-        // Iterative DFS using explicit stack.
-        // Visit start nodes in sorted order so that the fixture a cycle is reported on
-        // does not depend on HashMap iteration order (which differs between runs).
-        let mut start_fixtures: Vec<&String> = dep_graph.keys().collect();
-        start_fixtures.sort();
-        for start_fixture in start_fixtures {
-            if visited.contains(start_fixture) {
+        for start in 0..defs.len() {
+            if visited[start] {
                 continue;
             }
 
-            // Stack entries: (fixture_name, iterator_index, path_to_here)
-            let mut stack: Vec<(String, usize, Vec<String>)> =
-                vec![(start_fixture.clone(), 0, vec![])];
-            let mut rec_stack: HashSet<String> = HashSet::new();
+            // Stack entries: (definition, next edge index); `path` mirrors the recursion stack
+            let mut stack: Vec<(usize, usize)> = vec![(start, 0)];
+            let mut path: Vec<usize> = vec![start];
+            on_path[start] = true;
 
-            while let Some((current, idx, mut path)) = stack.pop() {
-                if idx == 0 {
-                    // First time visiting this node
-                    if rec_stack.contains(&current) {
-                        // Found a cycle
-                        let cycle_start_idx = path.iter().position(|f| f == &current).unwrap_or(0);
-                        let mut cycle_path: Vec<String> = path[cycle_start_idx..].to_vec();
-                        cycle_path.push(current.clone());
-
-                        // Create a canonical key for deduplication (sorted cycle representation)
-                        let mut cycle_key: Vec<String> =
-                            cycle_path[..cycle_path.len() - 1].to_vec();
-                        cycle_key.sort();
-                        let cycle_key_str = cycle_key.join(",");
-
-                        if !seen_cycles.contains(&cycle_key_str) {
-                            seen_cycles.insert(cycle_key_str);
-                            if let Some(fixture_def) = fixture_defs.get(&current) {
-                                cycles.push(FixtureCycle {
-                                    cycle_path,
-                                    fixture: fixture_def.clone(),
-                                });
-                            }
-                        }
-                        continue;
+            while let Some((node, idx)) = stack.last().copied() {
+                if idx < edges[node].len() {
+                    if let Some(top) = stack.last_mut() {
+                        top.1 += 1;
                     }
-
-                    rec_stack.insert(current.clone());
-                    path.push(current.clone());
-                }
-
-                // Get dependencies for current node
-                let deps = match dep_graph.get(&current) {
-                    Some(d) => d,
-                    None => {
-                        rec_stack.remove(&current);
-                        continue;
-                    }
-                };
-
-                if idx < deps.len() {
-                    // Push current back with next index
-                    stack.push((current.clone(), idx + 1, path.clone()));
-
-                    let dep = &deps[idx];
-                    if rec_stack.contains(dep) {
+                    let dep = edges[node][idx];
+                    if on_path[dep] {
                         // Found a cycle through this dependency
-                        let cycle_start_idx = path.iter().position(|f| f == dep).unwrap_or(0);
-                        let mut cycle_path: Vec<String> = path[cycle_start_idx..].to_vec();
-                        cycle_path.push(dep.clone());
+                        let from = path.iter().position(|n| *n == dep).unwrap_or(0);
+                        let members = &path[from..];
 
-                        let mut cycle_key: Vec<String> =
-                            cycle_path[..cycle_path.len() - 1].to_vec();
-                        cycle_key.sort();
-                        let cycle_key_str = cycle_key.join(",");
+                        // Canonical key for deduplication (sorted cycle members)
+                        let mut cycle_key = members.to_vec();
+                        cycle_key.sort_unstable();
 
-                        if !seen_cycles.contains(&cycle_key_str) {
-                            seen_cycles.insert(cycle_key_str);
-                            if let Some(fixture_def) = fixture_defs.get(dep) {
-                                cycles.push(FixtureCycle {
-                                    cycle_path,
-                                    fixture: fixture_def.clone(),
-                                });
-                            }
+                        if seen_cycles.insert(cycle_key) {
+                            let mut cycle_path: Vec<String> =
+                                members.iter().map(|n| defs[*n].name.clone()).collect();
+                            cycle_path.push(defs[dep].name.clone());
+                            cycles.push(FixtureCycle {
+                                cycle_path,
+                                fixture: defs[dep].clone(),
+                            });
                         }
-                    } else if !visited.contains(dep) {
+                    } else if !visited[dep] {
                         // Explore this dependency
-                        stack.push((dep.clone(), 0, path.clone()));
+                        on_path[dep] = true;
+                        path.push(dep);
+                        stack.push((dep, 0));
                     }
                 } else {
-                    // Done with this node
-                    visited.insert(current.clone());
-                    rec_stack.remove(&current);
+                    // Done with this definition
+                    visited[node] = true;
+                    on_path[node] = false;
+                    path.pop();
+                    stack.pop();
                 }
             }
         }
@@ -1707,6 +1694,7 @@ impl FixtureDatabase {
     ///
     /// Returns the best matching FixtureDefinition based on pytest's
     /// fixture shadowing rules: same file > conftest hierarchy > third-party.
+    #[allow(dead_code)] // Public library API; the server itself resolves via find_closest_definition
     pub fn resolve_fixture_for_file(
         &self,
         file_path: &Path,
